@@ -26,6 +26,7 @@ void register_conv();
 void register_locale();
 void register_state();
 void register_env();
+void register_loglevel();
 
 template <class T> constexpr i128 lo() { return static_cast<i128>(std::numeric_limits<T>::min()); }
 template <class T> constexpr i128 hi() { return static_cast<i128>(std::numeric_limits<T>::max()); }
